@@ -41,6 +41,21 @@ func verifPre(name string, lo, hi int) string {
 	return s
 }
 
+// verifMeta: semver build metadata of lo..hi bytes over [0-9A-Za-z-].
+func verifMeta(name string, lo, hi int) string {
+	s := v.NondetStringRange(name, lo, hi)
+	v.Assume(v.AllIn(s, "0-9a-zA-Z-"))
+	return s
+}
+
+// verifVerbatim: a version that is not a semantic version (schema none, or
+// one that does not parse) over the characters such versions use.
+func verifVerbatim(name string, lo, hi int) string {
+	s := v.NondetStringRange(name, lo, hi)
+	v.Assume(v.AllIn(s, "0-9a-z.+_-"))
+	return s
+}
+
 func verifInfo(ver, pre, meta, rel, epoch string) *nfpm.Info {
 	return &nfpm.Info{
 		Name: "p", Arch: "amd64", Platform: "linux", Version: ver, Prerelease: pre, VersionMetadata: meta,
@@ -65,7 +80,7 @@ func replaceDash(s string) string {
 func Verif_C14_RpmSyntax() {
 	ver := verifNum("maj", 2) + "." + verifNum("min", 1) + "." + verifNum("pat", 1)
 	pre := verifPre("pre", 0, v.Bound("C14.prelen", 3, 5))
-	meta := verifAlnum("meta", 0, 2)
+	meta := verifMeta("meta", 0, 2)
 	rel := verifAlnum("rel", 0, 1)
 	epoch := ""
 	if v.NondetBool("hasEpoch") {
@@ -165,4 +180,18 @@ func Verif_C14_RpmEpochDominates() {
 	v.Reach("C14.rpm.epoch.ran")
 	v.Assert(ok1 && ok2, "rpm-meta-builds")
 	v.Assert(v.RpmEVRCompare(e1, v1, r1, e2, v2, r2) < 0, "rpm-higher-epoch-sorts-after")
+}
+
+// Verif_C14_RpmVerbatim: a version that is used as written (schema none / not
+// a semantic version: no prerelease, no metadata) is the header's VERSION
+// verbatim, whatever characters it holds.
+func Verif_C14_RpmVerbatim() {
+	ver := verifVerbatim("ver", 1, v.Bound("C14.verbatimlen", 3, 5))
+	m, err := buildRPMMeta(verifInfo(ver, "", "", "", ""))
+	v.Reach("C14.rpm.verbatim.ran")
+	v.Assert(err == nil, "rpm-meta-builds")
+	if err != nil {
+		return
+	}
+	v.Assert(m.Version == ver, "rpm-verbatim-version-kept-as-written")
 }
